@@ -185,6 +185,12 @@ impl<'buf> Session<'buf> {
             return Err(Error::Peer(err));
         }
 
+        if resumed {
+            // Messages that are replayed on this connection still occupy the broker's window.
+            let inflight = self.data.outbound.inflight_publishes();
+            send_quota = send_quota.saturating_sub(inflight.min(u16::MAX as usize) as u16);
+        }
+
         self.runtime.session_resumed = resumed;
         self.runtime.keepalive_interval = keepalive_interval;
         self.runtime.send_quota = send_quota;
